@@ -174,10 +174,13 @@ def model_line(reent, faults, ops):
             f"faults={','.join(map(str, sorted(faults)))} ops={';'.join(enc_op(o) for o in ops)}")
 
 
-def run_seq(reent, faults, ops, workdir):
+def run_seq(reent, faults, ops, workdir, expand=False):
     """Execute ops one after the other on real FileLock objects over one real lock file.
-    op = ('a', obj, thread, mode) with mode 'n' | 'b' | 't<ticks>'   or   ('r', obj, thread, force).
-    Returns list of 'res/locked/open/elapsed' strings (same format as the model) and the Env."""
+    op = ('a', obj, thread, mode) with mode 'n' | 'b' | 't<ticks>'   or   ('r', obj, thread, force)   or
+    ('x', obj, thread, mode): a whole `with obj.acquire_ctx(...)` block (mode 'w': the plain with-statement),
+    which counts as the acquire followed - only when the block was entered - by a plain release.
+    Returns list of 'res/locked/open/elapsed' strings (same format as the model) and the Env; with
+    `expand` also the operation list in which every 'x' is replaced by what it amounted to."""
     global ENV
     FL = install()
     ENV = Env(faults)
@@ -185,15 +188,23 @@ def run_seq(reent, faults, ops, workdir):
     path = _os.path.join(workdir, 'seq.lock')
     objs = [FL.FileLock(path, reentrant=r) for r in reent]
     out = []
+    flat = []
+
+    def snap(res, t0):
+        locked = ''.join('1' if ob.is_locked else '0' for ob in objs)
+        out.append(f'{res}/{locked}/{len(env.open_fds)}/{round((env.vt - t0) / TICK)}')
+
     try:
         for op in ops:
             env.cur = op[2]
             t0 = env.vt
             n0 = env.ncall
             o = objs[op[1]]
+            entered = None
             try:
                 if op[0] == 'a':
                     m = op[3]
+                    flat.append(op)
                     if m == 'n':
                         r = o.acquire(blocking=False)
                     elif m == 'b':
@@ -201,7 +212,25 @@ def run_seq(reent, faults, ops, workdir):
                     else:
                         r = o.acquire(timeout=int(m[1:]) * TICK, poll_interval=POLL * TICK)
                     res = 'T' if r is True else 'F' if r is False else repr(r)
+                elif op[0] == 'x':
+                    m = op[3]
+                    flat.append(('a', op[1], op[2], 'b' if m == 'w' else m))
+                    if m == 'w':
+                        cm = o
+                    elif m == 'n':
+                        cm = o.acquire_ctx(blocking=False, poll_interval=POLL * TICK)
+                    elif m == 'b':
+                        cm = o.acquire_ctx(poll_interval=POLL * TICK)
+                    else:
+                        cm = o.acquire_ctx(timeout=int(m[1:]) * TICK, poll_interval=POLL * TICK)
+                    try:
+                        cm.__enter__()
+                        res = 'T'
+                        entered = cm
+                    except TimeoutError:
+                        res = 'F'
                 else:
+                    flat.append(op)
                     r = o.release(force=op[3])
                     res = 'U' if r is None else repr(r)
             except WouldBlock:
@@ -213,8 +242,18 @@ def run_seq(reent, faults, ops, workdir):
                 res = 'X'
             except BaseException as e:  # noqa
                 res = 'EXC-' + type(e).__name__
-            locked = ''.join('1' if ob.is_locked else '0' for ob in objs)
-            out.append(f'{res}/{locked}/{len(env.open_fds)}/{round((env.vt - t0) / TICK)}')
+            snap(res, t0)
+            if entered is not None:            # leave the block: this is the release
+                t0 = env.vt
+                flat.append(('r', op[1], op[2], False))
+                try:
+                    r = entered.__exit__(None, None, None)
+                    res = 'U' if not r else repr(r)
+                except OSError:
+                    res = 'X'
+                except BaseException as e:  # noqa
+                    res = 'EXC-' + type(e).__name__
+                snap(res, t0)
     finally:
         for ob in objs:
             ob._thread_lock = CoopLock(False)      # never let __del__ trip over a lock state
@@ -230,6 +269,8 @@ def run_seq(reent, faults, ops, workdir):
                 _os.close(fd)
             except OSError:
                 pass
+    if expand:
+        return out, env, flat
     return out, env
 
 
@@ -441,7 +482,9 @@ def gen_threads(rng):
     """A multi-thread scenario: objects (reentrancy) and one script per thread.
     round = (obj, form, nested, force) with form in
       'b' blocking acquire(), 'n' non-blocking, 't<ticks>' timed, 'with' the with-statement,
-      'ctxb' / 'ctxt<ticks>' acquire_ctx()."""
+      'ctxb' / 'ctxn' / 'ctxt<ticks>' acquire_ctx().
+    An optional fifth element is the number of ticks the holder stays inside its critical section (virtual
+    time only passes while nobody can run, so this is what lets the others' timeouts expire)."""
     nobj = rng.randint(1, 2)
     reent = [rng.random() < 0.5 for _ in range(nobj)]
     nthr = rng.randint(2, 4)
@@ -450,10 +493,11 @@ def gen_threads(rng):
         rounds = []
         for _ in range(rng.randint(1, 3)):
             o = rng.randrange(nobj)
-            form = rng.choice(['b', 'b', 'n', 't30', 't200', 'with', 'ctxb', 'ctxt60'])
+            form = rng.choice(['b', 'b', 'n', 't30', 't200', 'with', 'ctxb', 'ctxt60', 'ctxn', 'ctxt30'])
             nested = reent[o] and rng.random() < 0.4
             force = nested and rng.random() < 0.5
-            rounds.append((o, form, nested, force))
+            hold = rng.choice([0, 0, 100, 400])
+            rounds.append((o, form, nested, force, hold))
         scripts.append(rounds)
     return {'reent': reent, 'scripts': scripts}
 
@@ -473,14 +517,17 @@ def run_threads(scn, seed, workdir, choices=None, pct=0):
         ob._thread_lock.oid = i
         objs.append(ob)
 
-    def critical(me):
+    def critical(me, hold=0):
         S.point('cs.enter')
         E.occ += 1
         E.maxocc = max(E.maxocc, E.occ)
         if E.occ > 1:
             E.overlaps.append(me)
         E.labels.append(f'en:{me}')
-        S.point('cs.inside')
+        if hold:
+            S.point('cs.hold', enabled=lambda: False, deadline=S.vt + hold * TICK)
+        else:
+            S.point('cs.inside')
         E.occ -= 1
         E.labels.append(f'ex:{me}')
 
@@ -502,13 +549,14 @@ def run_threads(scn, seed, workdir, choices=None, pct=0):
 
     def body(me):
         def f():
-            for (o, form, nested, force) in scn['scripts'][me]:
+            for rnd in scn['scripts'][me]:
+                (o, form, nested, force), hold = rnd[:4], (rnd[4] if len(rnd) > 4 else 0)
                 ob = objs[o]
                 if form == 'with':
                     E.ctx[me] = 'acquire'
                     ob.__enter__()
                     E.ctx[me] = None
-                    critical(me)
+                    critical(me, hold)
                     S.point('release')
                     E.labels.append(f'rb:{me}:{o}:0')
                     E.ctx[me] = 'release'
@@ -516,7 +564,8 @@ def run_threads(scn, seed, workdir, choices=None, pct=0):
                     E.ctx[me] = None
                     continue
                 if form.startswith('ctx'):
-                    kw = {} if form == 'ctxb' else {'timeout': int(form[4:]) * TICK}
+                    kw = ({} if form == 'ctxb' else {'blocking': False} if form == 'ctxn'
+                          else {'timeout': int(form[4:]) * TICK})
                     cm = ob.acquire_ctx(poll_interval=POLL * TICK, **kw)
                     E.ctx[me] = 'acquire'
                     try:
@@ -525,7 +574,7 @@ def run_threads(scn, seed, workdir, choices=None, pct=0):
                         E.ctx[me] = None
                         continue
                     E.ctx[me] = None
-                    critical(me)
+                    critical(me, hold)
                     S.point('release')
                     E.labels.append(f'rb:{me}:{o}:0')
                     E.ctx[me] = 'release'
@@ -542,7 +591,7 @@ def run_threads(scn, seed, workdir, choices=None, pct=0):
                     continue
                 if nested:
                     ok2 = do_acquire(me, o, blocking=False)
-                    critical(me)
+                    critical(me, hold)
                     if ok2:
                         if force:
                             do_release(me, o, force=True)
@@ -550,7 +599,7 @@ def run_threads(scn, seed, workdir, choices=None, pct=0):
                         do_release(me, o)
                     do_release(me, o)
                 else:
-                    critical(me)
+                    critical(me, hold)
                     do_release(me, o)
         return f
     for k in range(len(scn['scripts'])):
